@@ -901,8 +901,14 @@ def statement_coverage(pid, cases, n=64, workers=8):
     """Run `n` of the cases with NUMBA_DISABLE_JIT=1 under sys.settrace (harness/impl/narrowbcov.py) and report the
     statement coverage of /repo's narrow-phase modules reached by the generators."""
     from . import common as cm
-    step = max(1, len(cases) // n)
-    sel = [dict(c1=c["c1"], c2=c["c2"], ops=c["ops"]) for c in cases[::step] if "scene" not in c][:n]
+    step = max(1, len(cases) // max(1, n // 2))
+    pick = [i for i in range(0, len(cases), step) if "scene" not in cases[i]][: n // 2]
+    # plus unwrapped primitive pairs (the jitted *_primitives loop is only observable from outside when interpreted)
+    prim = [i for i, c in enumerate(cases) if "scene" not in c and i not in set(pick)
+            and c["c1"]["kind"] in nw.PRIMS and c["c2"]["kind"] in nw.PRIMS and "margin" not in c["c1"] and "margin" not in c["c2"]]
+    pick += prim[:: max(1, len(prim) // max(1, n - len(pick)))][: n - len(pick)]
+    sel = [dict(c1=cases[i]["c1"], c2=cases[i]["c2"], ops=cases[i]["ops"], idx=i,
+                same_object=cases[i].get("same_object", False)) for i in pick]
     if not sel:
         return {}
     workers = min(workers, len(sel))
@@ -910,13 +916,15 @@ def statement_coverage(pid, cases, n=64, workers=8):
                                jit=False, tag="cov")
     hits = {}
     calls = 0
+    excs = []
     for r in res:
         if r["status"] != "ok":
             continue
         calls += r["result"]["calls"]
+        excs += r["result"].get("exceptions", [])
         for k, v in r["result"]["hits"].items():
             hits.setdefault(k, set()).update(v)
-    out = dict(calls=calls, cases=len(sel))
+    out = dict(calls=calls, cases=len(sel), interpreted_exceptions=excs)
     for f in COV_FILES:
         ex = _executable_lines(cm.REPO / "distance3d" / f)
         got = hits.get(f, set()) & ex
@@ -924,3 +932,38 @@ def statement_coverage(pid, cases, n=64, workers=8):
         out[f] = dict(statements=len(ex), executed=len(got), percent=round(100.0 * len(got) / max(1, len(ex)), 1),
                       never_executed_lines=missed[:40])
     return out
+
+
+def lattice_box_pair(rng, overlap=True):
+    """axis-aligned (or axis-permuted) polytopes with sizes and offsets on a 0.25 grid: boxes, cube meshes, cube hulls - many
+    collinear / coplanar Minkowski-difference vertices (EPA zero-area faces, exactly degenerate GJK simplices)"""
+    def poly(kind, size, pos, R):
+        if kind == "box":
+            return dict(kind="box", pose=nw.pose_of(R, pos), size=list(size))
+        pts = [[0.5 * size[0] * a, 0.5 * size[1] * b, 0.5 * size[2] * c] for a in (-1, 1) for b in (-1, 1) for c in (-1, 1)]
+        if kind == "mesh":
+            return dict(kind="mesh", pose=nw.pose_of(R, pos), vertices=pts)
+        return dict(kind="hull", vertices=(np.array(pts) @ np.array(R).T + np.array(pos)).tolist())
+    grid = [0.25 * k for k in range(-12, 13)]
+    sizes = [0.5, 1.0, 1.0, 2.0, 2.0, 4.0]
+    k1 = rng.choice(["box", "box", "box", "mesh", "hull"])
+    k2 = rng.choice(["box", "box", "box", "mesh", "hull"])
+    s1 = [rng.choice(sizes) for _ in range(3)]
+    s2 = [rng.choice(sizes) for _ in range(3)]
+    R1 = nw.AXIS_PERMS[rng.randrange(len(nw.AXIS_PERMS))] if rng.random() < 0.3 else np.eye(3)
+    R2 = nw.AXIS_PERMS[rng.randrange(len(nw.AXIS_PERMS))] if rng.random() < 0.3 else np.eye(3)
+    p1 = [rng.choice([0.0, 0.0, 0.5, -1.0, 2.0]) for _ in range(3)]
+    e1 = np.abs(R1) @ np.array(s1) / 2
+    e2 = np.abs(R2) @ np.array(s2) / 2
+    for _ in range(50):
+        off = np.array([rng.choice(grid) for _ in range(3)])
+        pen = (e1 + e2) - np.abs(off)             # > 0 on every axis: boxes overlap
+        if overlap is True and np.all(pen > 0):
+            break
+        if overlap is False and np.any(pen < 0):
+            break
+        if overlap is None:
+            break
+    p2 = (np.array(p1) + off).tolist()
+    a, b = poly(k1, s1, p1, R1), poly(k2, s2, p2, R2)
+    return a, b, dict(stream="lattice_boxes", kinds=[k1, k2], overlap=bool(np.all((e1 + e2) - np.abs(off) > 0)))
